@@ -1,19 +1,6 @@
 // C03: the automaton do_minimize builds from the final partition accepts the same words.
 verus! {
 
-/// run of a transition table over a word of symbol ids; None = stuck
-spec fn trun(tab: Map<u32, Map<InpId, u32>>, q: u32, w: Seq<InpId>) -> Option<u32>
-    decreases w.len()
-{
-    if w.len() == 0 { Some(q) }
-    else if cell_in(tab, q, w[0]) { trun(tab, tab[q][w[0]], w.drop_first()) }
-    else { None }
-}
-
-spec fn tacc(tab: Map<u32, Map<InpId, u32>>, q: u32, acc: ISet<u32>, w: Seq<InpId>) -> bool {
-    trun(tab, q, w) is Some && acc.contains(trun(tab, q, w)->0)
-}
-
 /// the two automata accept the same words of symbol ids (the symbol pool is shared)
 spec fn same_language(d: DFA, r: DFA) -> bool {
     forall|w: Seq<InpId>| tacc(d.transitions@, d.starting_state, d.accepting_states@, w) == tacc(r.transitions@, r.starting_state, r.accepting_states@, w)
